@@ -320,6 +320,14 @@ def cases(rng, tier):
                        'pend': [{'n': '/a/b', 'cbp': False, 'dg': False}, {'n': '/a', 'cbp': True, 'dg': False}, {'n': '/x', 'cbp': False, 'dg': False}] if busy else [],
                        'hand': ['/a', '/h'] if busy else [],
                        'pkts': [{'w': w.hex(), 'typ': None, 'mode': m, 'tag': 'fixed'} for w in fixed[i:i + 4] for m in ('await', 'task')]}
+    # a packet that addresses a pending Interest delivered in the very loop turn in which that Interest ends otherwise
+    # (the caller cancels its await / its lifetime runs out): reception must not fail either (oracle only)
+    for fe in ('v2', 'v1'):
+        for how in ('cancel', 'cancel-after', 'deadline'):
+            for what in ('nack', 'data', 'nack-lp-token', 'data-lp'):
+                for dg in (False, True):
+                    for two in (False, True):
+                        yield {'k': 'turn', 'fe': fe, 'how': how, 'what': what, 'dg': dg, 'two': two}
     pool = stream_packets(rng)
     short = [p for p in pool if len(p) <= 12]
     # --- (a) streams -------------------------------------------------------------------------
@@ -430,6 +438,12 @@ def shrink(case):
 
 def _shrink(case):
     k = case['k']
+    if k == 'turn':
+        if case['two']:
+            yield dict(case, two=False)
+        if case['dg']:
+            yield dict(case, dg=False)
+        return
     if k == 'stream':
         if 'raw' in case:
             s = bytes.fromhex(case['raw'])
@@ -765,7 +779,82 @@ def run_impl(case):
         return run_stream(case)
     if case['k'] == 'udp':
         return run_udp(case)
+    if case['k'] == 'turn':
+        return run_turn(case)
     return run_recv(case)
+
+
+def run_turn(case):
+    """one (or two) pending Interest(s) on /a/b; the caller's cancellation / the lifetime's end and the delivery of a
+    Nack or Data addressing it fall into ONE loop turn (end first, then the packet); afterwards a fresh Interest on
+    the same name is answered"""
+    from ndn import encoding as enc, types
+    from ndn.security import DigestSha256Signer
+    fe = case['fe']
+    with AppRig(fe) as rig:
+        app, loop = rig.app, rig.loop
+        outcomes = {}
+
+        async def v2_validator(name, sig, ctx):
+            return types.ValidResult.PASS
+
+        async def v1_validator(name, sig):
+            return True
+
+        async def waiter(i, coro):
+            try:
+                r = await coro
+                outcomes[i] = ['data']
+            except types.InterestNack as e:
+                outcomes[i] = ['nack', e.reason]
+            except BaseException as e:        # noqa
+                outcomes[i] = ['exc', type(e).__name__]
+        d0 = bytes(enc.make_data('/a/b', enc.MetaInfo(), b'd0', signer=DigestSha256Signer()))
+        name = enc.Name.from_str('/a/b')
+        if case['dg']:
+            name = name + [enc.Component.from_bytes(hashlib.sha256(d0).digest(), enc.Component.TYPE_IMPLICIT_SHA256)]
+        life = 500
+        tasks = []
+
+        async def express(i, lifetime):
+            if fe == 'v2':
+                coro = app.express(name, v2_validator, lifetime=lifetime, nonce=i + 1)
+            else:
+                coro = app.express_interest(name, validator=v1_validator, lifetime=lifetime, nonce=i + 1)
+            await waiter(i, coro)
+        t0 = loop.time()
+        for i in range(2 if case['two'] else 1):
+            tasks.append(loop.run_now(express(i, life)))
+        what = case['what']
+        if what.startswith('nack'):
+            inner = bytes(enc.make_interest(name, enc.InterestParam(nonce=9, lifetime=life)))
+            w = tlv(LP, (tlv(0x62, b'\x01\x02') if 'token' in what else b'') + tlv(0x320, tlv(0x321, b'\x96')) + tlv(0x50, inner))
+        else:
+            w = d0 if 'lp' not in what else tlv(LP, tlv(0x50, d0))
+        err0 = len(loop.errors)
+        if case['how'] == 'cancel':
+            tasks[0].cancel()                       # no loop turn in between
+            rig.deliver(w, first_type(w))
+        elif case['how'] == 'cancel-after':
+            # the face has read the packet (its reception task is scheduled) when the caller gives up: the reception
+            # task runs before the cancelled task gets to clean up
+            loop.create_task(rig.face.callback(first_type(w), w))
+            tasks[0].cancel()
+            loop.settle()
+        else:
+            # the deadline timer was created at express time, so it fires first in the turn at t0 + lifetime
+            loop.call_at(t0 + life / 1000.0, lambda: loop.create_task(rig.face.callback(first_type(w), w)))
+            loop.advance(t0 + life / 1000.0)
+            loop.settle()
+        bg = [cls_name(x[0]) for x in loop.errors[err0:]]
+        first = {str(i): outcomes.get(i) for i in range(len(tasks))}
+        # a fresh Interest on the same name must still be served
+        fresh = len(tasks)
+        loop.run_now(express(fresh, 4000))
+        e = rig.deliver_await(d0, 6)
+        loop.settle()
+        return {'bg': bg, 'first': first, 'fresh': [outcomes.get(fresh), None if e is None else cls_name(type(e).__name__)],
+                'pit_left': len(_table(rig)), 'errors_total': len(loop.errors)}
 
 
 # -------------------------------------------------------------------------------------------- model
@@ -775,6 +864,8 @@ def model_line(case, impl):
         return 'C06 frames ' + (_stream_bytes(case).hex() or '-')
     if k == 'udp':
         return 'C06 udp ' + (case['data'] or '-')
+    if k == 'turn':
+        return None          # same-turn endings are outside the reception model (live pending Interests): oracle only
     groups = {}
     order = []
     for i, p in enumerate(impl['pend']):
@@ -908,6 +999,27 @@ def oracle(case, impl):
         if l is not None and l[1] + l[0] == len(d) and impl['got'] != [[t[0], d.hex()]]:
             return 'udp: a complete packet was not handed over'
         return None
+    if k == 'turn':
+        fe = case['fe']
+        if impl['bg'] or impl['errors_total']:
+            return (f"{fe}: reception of a {case['what']} in the loop turn in which its Interest ended ({case['how']}) failed with "
+                    f"{(impl['bg'] or ['?'])[0]} (unhandled in the per-packet task)")
+        want0 = {'cancel': [['exc', 'CancelledError'], ['exc', 'InterestCanceled']],
+                 'cancel-after': [['exc', 'CancelledError'], ['exc', 'InterestCanceled']], 'deadline': [['exc', 'InterestTimeout']]}[case['how']]
+        if impl['first'].get('0') not in want0:
+            return f"{fe}: the Interest that ended by {case['how']} finished as {impl['first'].get('0')}"
+        if case['two']:
+            kind = 'nack' if case['what'].startswith('nack') else 'data'
+            allowed = [['exc', 'InterestTimeout'], ['nack', 150] if kind == 'nack' else ['data']] if case['how'] == 'deadline' \
+                else [['nack', 150] if kind == 'nack' else ['data']]
+            if impl['first'].get('1') not in allowed:
+                return (f"{fe}: the second Interest on that name, addressed by the {kind}, finished as {impl['first'].get('1')} "
+                        f"(allowed {allowed})")
+        if impl['fresh'] != [['data'], None]:
+            return f"{fe}: a fresh Interest on the same name afterwards was not served normally ({impl['fresh']})"
+        if impl['pit_left']:
+            return f"{fe}: {impl['pit_left']} pending-Interest nodes left at the end"
+        return None
     pend = impl['pend']
     alive = set(range(len(pend)))
     for n, rec in enumerate(impl['trace']):
@@ -978,6 +1090,8 @@ def nontrivial(case, impl):
         return bool(case['cuts'])
     if case['k'] == 'udp':
         return len(case['data']) <= 18
+    if case['k'] == 'turn':
+        return True
     return bool(case['pend'] or case['hand'])
 
 
@@ -989,6 +1103,8 @@ def tags(case, impl):
         t.append('stream-end:' + case.get('end', 'eof'))
         if len(_stream_bytes(case)) >= 65536:
             t.append('stream-with-64k-packet')
+    elif case['k'] == 'turn':
+        t.append(f"turn:{case['fe']}:{case['how']}:{case['what']}")
     elif case['k'] == 'recv':
         t.append(f"{case['fe']}:pend{len(case['pend'])}:hand{len(case['hand'])}")
         for pk, rec in zip(case['pkts'], impl['trace']):
